@@ -71,6 +71,17 @@ def hashL(l):
     return h
 
 
+def block_hash(outs, h=17):
+    """Python twin of NpLite.block_hash over a block of rendered outputs."""
+    for o in outs:
+        h = (h * 1000003 + hashL(o) + 7) & HASH_P
+    return h
+
+
+def enum_blocks(total, bsize):
+    return [(s, min(bsize, total - s)) for s in range(0, total, bsize)]
+
+
 def impl_env():
     env = dict(os.environ)
     env.update(PYTHONPATH=REPO, PYTHONHASHSEED='0', OMP_NUM_THREADS='1', OPENBLAS_NUM_THREADS='1',
@@ -347,6 +358,27 @@ class Ctx:
         for r in res:
             out += r[0]
         return out
+
+    def model_block_hashes(self, imports, fexpr, blocks, shard=64, prelude=''):
+        """fexpr: Gallina `Z -> list Z`; blocks: [(start, n)].  One block_hash per block."""
+        bodies = []
+        for i in range(0, len(blocks), shard):
+            chunk = blocks[i:i + shard]
+            lit = '; '.join('(%d%%nat, %s)' % (n, zlit(s)) for s, n in chunk)
+            bodies.append(prelude + 'Definition f := (%s).\nEval vm_compute in (map (fun sb => block_hash f (fst sb) (snd sb) 17) [%s]).\n'
+                          % (fexpr, lit))
+        out = []
+        for r in self.coq_eval_many(imports, bodies):
+            out += r[0]
+        return out
+
+    def model_index_hashes(self, imports, fexpr, start, n, prelude=''):
+        body = prelude + 'Definition f := (%s).\nEval vm_compute in (block_hashes f %d%%nat %s).\n' % (fexpr, n, zlit(start))
+        return self.coq_eval(imports, body)[0]
+
+    def model_index_output(self, imports, fexpr, idx, prelude=''):
+        body = prelude + 'Definition f := (%s).\nEval vm_compute in (f %s).\n' % (fexpr, zlit(idx))
+        return self.coq_eval(imports, body)[0]
 
     def model_outputs(self, imports, cases_lit, expr, shard=200):
         bodies = []
